@@ -4,7 +4,7 @@ package main
 // cluster scenarios whose histories are checked for two leaders in one term.
 
 func c01nodeseq(cw *caseWriter, tier string, r *rng) {
-	imgs := c06images()
+	imgs := append(c06images(), c06tieImages()...)
 	alpha := c06alphabet(3)
 	alpha = append(alpha, c06sym{ev: evTimeoutNow(), kind: 5}, c06sym{ev: evDecision(), kind: 8})
 	cnt := 2500
